@@ -83,6 +83,13 @@ def make_case(rng, i):
     twin = asyncify(rng, spec, mode)
     if twin is None:
         return None
+    if rng.random() < 0.2:
+        # every coroutine callable of the twin is a coroutine-function WRAPPER (functools.wraps) around
+        # a plain function returning an awaitable: asynchronous for the caller, plain when unwrapped
+        for grp in (twin["cbs"], twin["guards"], twin["validators"]):
+            for x in grp.values():
+                if x.get("async") and x.get("kind") not in ("lambda", "prop", "attr") and not x.get("sigdeco"):
+                    x["awrap"] = True
     # H7: nested sends only in callbacks that are coroutines in the twin (same scripts on both sides)
     for c, cb in twin["cbs"].items():
         if not cb["async"]:
